@@ -10,6 +10,8 @@ from harness.core import exc_name, tagged, tree_snapshot
 ID = "C02"
 TITLE = "Initialised jobs persist and reopen exactly; opening is lazy"
 LEAN_MODULE = "Signac.Properties.C02"
+# step level: init of a valid job performs no file-system step at all (Refinement.init_settled_no_step)
+EXTRA_MODULES = ["Signac.Properties.Refinement"]
 DRIVER = "drv_ws"
 DESIGN_REF = "DESIGN.md §4 C02"
 RULE = ("sets of 1-40 jobs whose ids are chosen to collide: state points {n:k} mined so that ids share prefixes of length 1-3 "
@@ -33,7 +35,11 @@ LEVEL_TEXT = ("Proved in Lean for every world, state point and prefix: open_job(
               "1..32; the oracle checks on the real tree that open_job writes nothing, that later mutation of the caller's "
               "mapping does not reach the job, that re-init leaves bytes / mtime / inode of the state point file unchanged, "
               "and type-exact equality of the re-read state point.")
-LEVEL_NOTE = ("Trusted: Lean kernel + 3 standard axioms; harness/oracle. 'Unaffected by later mutation' (deep copy) and 'never "
+LEVEL_NOTE = ("At the file-system step level (Signac/Properties/Refinement.lean, audited with this check): init() of a job whose "
+              "directory validates announces NO step - under every event schedule, so nothing can be rewritten, torn or "
+              "faulted (init_settled_no_step, init_settled_any_schedule); a fresh init is exactly mkdir + temp open/write/commit "
+              "(init_fresh_trace) and a second init after it is again no step (init_twice_no_step). "
+              "Trusted: Lean kernel + 3 standard axioms; harness/oracle. 'Unaffected by later mutation' (deep copy) and 'never "
               "rewrites a valid file' are runtime facts decided by the oracle on the real code; the model states them as "
               "'open takes the value' and 'init of an existing job is the identity'.")
 
